@@ -73,6 +73,7 @@ class IntervalTree:
         # Sort the rows (not each column on its own) by their lower bounds, so
         # that each interval keeps its upper bound and its original index:
         order = np.argsort(indexed_intervals[:, 0], kind="stable")
+        self.size = intervals.shape[0]
         self.root = self._build_tree(indexed_intervals[order])
 
     def __contains__(self, item):
@@ -151,7 +152,8 @@ class IntervalTree:
         if (check_extreme
                 and IntervalTree.interval_contains(query_interval, self.left)
                 and IntervalTree.interval_contains(query_interval, self.right)):
-            return []  # TODO: Return all intervals
+            # Every interval of this tree overlaps with the query interval:
+            return list(range(self.size))
 
         # Let's start with the centered intervals
         intervals = [int(interval[2]) for interval in node.center
